@@ -1311,7 +1311,12 @@ class Parser:
         if data.get("message_defs") is not None:
             for name, mdf in data["message_defs"].items():
                 self.handle_message_def(name, mdf)
-            self.yaml_dict["message_defs"].update(data["message_defs"])
+            mdefs = dict(data["message_defs"])
+            prev = self.yaml_dict["message_defs"].get("_RESERVED_")
+            if prev is not None and "_RESERVED_" in mdefs:
+                # every file may reserve ids: keep all of them for the combined yaml output
+                mdefs["_RESERVED_"] = {"id": [*prev["id"], *mdefs["_RESERVED_"]["id"]]}
+            self.yaml_dict["message_defs"].update(mdefs)
 
     def check_key_value_separation(self, text: str):
         for n, line in enumerate(text.splitlines(), start=1):
